@@ -61,6 +61,10 @@ func ctxConstants() []*Opnd {
 			mkInt64(1, -3, 34, 0),         // 6 1e-3
 			mkSpecial(fInf, false, 5, 4),  // 7 +Inf
 			long,                          // 8 40-digit value
+			mkCoef(false, mustInt("1225"+strings.Repeat("0", 35)+"1"), -39, 40, ToNearestAway), // 9  1.225 0…0 1: a tie at 3 digits decided by a digit two words further down
+			mkCoef(false, mustInt("1"+strings.Repeat("0", 28)+"1"), -29, 30, 0),                // 10 1+1e-29
+			mkCoef(false, mustInt(strings.Repeat("9", 29)), -29, 29, 0),                        // 11 1-1e-29
+			mkInt64(-1, 0, 1, 0), // 12 -1
 		}
 	}
 	return ctxConsts
@@ -68,7 +72,7 @@ func ctxConstants() []*Opnd {
 
 func ctxOps() []cop {
 	var ops []cop
-	pairs := [][2]int{{4, 5}, {7, 0}, {3, 7}, {3, 2}, {7, 7}, {-1, 5}, {8, 6}, {1, -1}, {0, 0}}
+	pairs := [][2]int{{4, 5}, {7, 0}, {3, 7}, {3, 2}, {7, 7}, {-1, 5}, {8, 6}, {1, -1}, {0, 0}, {9, 3}, {2, 9}}
 	for _, op := range []int{opAdd, opSub, opMul, opQuo} {
 		for r := 0; r < 2; r++ {
 			for _, p := range pairs {
@@ -77,14 +81,14 @@ func ctxOps() []cop {
 		}
 	}
 	for r := 0; r < 2; r++ {
-		for _, t := range [][3]int{{4, 5, 8}, {3, 7, 5}, {7, 4, 0}, {-1, 5, 6}, {5, 5, -1}} {
+		for _, t := range [][3]int{{4, 5, 8}, {3, 7, 5}, {7, 4, 0}, {-1, 5, 6}, {5, 5, -1}, {10, 11, 12}, {3, 4, 9}} {
 			ops = append(ops, cop{name: fmt.Sprintf("z%d=FMA(%s,%s,%s)", r, cname(t[0]), cname(t[1]), cname(t[2])), recv: r, kind: ckArith, op: opFMA, srcs: []int{t[0], t[1], t[2]}})
 		}
 		for _, x := range []int{1, 4, 8, 7, 2, -1} {
 			ops = append(ops, cop{name: fmt.Sprintf("z%d=Sqrt(%s)", r, cname(x)), recv: r, kind: ckArith, op: opSqrt, srcs: []int{x}})
 		}
 		for _, op := range []int{opNeg, opAbs, opSet} {
-			for _, x := range []int{1, 8, 0, -1} {
+			for _, x := range []int{1, 8, 0, -1, 9} {
 				ops = append(ops, cop{name: fmt.Sprintf("z%d=%s(%s)", r, opNames[op], cname(x)), recv: r, kind: ckArith, op: op, srcs: []int{x}})
 			}
 		}
@@ -112,7 +116,7 @@ func cname(i int) string {
 	if i < 0 {
 		return "other"
 	}
-	return []string{"-Inf", "-1.5", "-0", "+0", "2.25", "1.23456", "1e-3", "+Inf", "long40"}[i]
+	return []string{"-Inf", "-1.5", "-0", "+0", "2.25", "1.23456", "1e-3", "+Inf", "long40", "1.225(0×35)1", "1+1e-29", "1-1e-29", "-1"}[i]
 }
 
 func newCState() *cstate {
